@@ -4,7 +4,7 @@ from __future__ import annotations
 import ast
 
 from ..cfg import CFG
-from ..core import AnalysisError, own_nodes, short, unparse
+from ..core import AnalysisError, own_nodes, parent, short, unparse
 from ..modelfacts import ModelFacts
 from ..rules import trav, isdrules, live, pur, shape
 from ..typing_lite import Typer
@@ -90,6 +90,13 @@ def build_provenance(ctx, extra_roles=None):
   return prov, ps, fs
 
 
+def _anc(node, stop):
+  cur = parent(node)
+  while cur is not None and cur is not stop:
+    yield cur
+    cur = parent(cur)
+
+
 def check_copy_to(ctx):
   ix = ctx.ix
   for q, need in COPY_REQUIRED.items():
@@ -105,6 +112,22 @@ def check_copy_to(ctx):
     ctx.check(not missing, "DSP-copy", f"{q}|copies {sorted(need)}", ctx.where(f.module, f.node), f"calls {sorted(calls)} on `{dest}`",
               f"{f.short} does not copy {sorted(missing)}: a per-region clone of the document loses that information and snapshots taken with "
               "the significant-times cache differ from those taken without it")
+    # each of those calls copies everything: it runs unconditionally, or once per item of one loop over a view of the source -
+    # not under a test on the item and not inside a second loop (which would copy only the items that pair up)
+    for c in [c for c in own_nodes(f.node) if isinstance(c, ast.Call) and isinstance(c.func, ast.Attribute) and unparse(c.func.value) == dest and c.func.attr in need]:
+      ctl = [a for a in _anc(c, f.node) if isinstance(a, (ast.For, ast.While, ast.If, ast.Try, ast.IfExp, ast.comprehension))]
+      loops = [a for a in ctl if isinstance(a, (ast.For, ast.While))]
+      loop_vars = {n_.id for l_ in loops if isinstance(l_, ast.For) for n_ in ast.walk(l_.target) if isinstance(n_, ast.Name)}
+      filt = [a for a in ctl if isinstance(a, (ast.If, ast.IfExp)) and any(isinstance(n_, ast.Name) and n_.id in loop_vars for n_ in ast.walk(a.test))]
+      key = f"{q}|{c.func.attr} is reached for every item"
+      if len(loops) > 1 or filt:
+        why = f"inside {len(loops)} nested loops" if len(loops) > 1 else f"under the test `{short(filt[0].test, 50)}` on the item"
+        ctx.bad("DSP-copy", key, ctx.where(f.module, c), f"{f.short} calls `{short(c, 60)}` {why}: only some of the source's items are copied, so a per-region clone "
+                "(significant times, cached snapshots) differs from the document")
+      elif any(isinstance(a, (ast.If, ast.IfExp, ast.Try, ast.While)) for a in ctl):
+        ctx.undecide("DSP-copy", f"{f.qualname}: `{short(c, 60)}` is conditional; whether everything is still copied is not decided")
+      else:
+        ctx.ok("DSP-copy", key, ctx.where(f.module, c), "unconditional" if not loops else f"once per item of `{short(loops[0].iter, 40)}`")
   # ContentDocument.copy_to interpreted on a sample document: every initial value arrives at the destination, also one that restates
   # the property's default (an explicit initial tts:position overrides tts:origin, an absent one does not)
   from ..consteval import NotConst as _NC, Raised as _R
